@@ -341,7 +341,7 @@ def concrete_playback(src, target, harness, timeout_s, mem_gb, logf, want=None):
         tests = pref or tests
     return tests[0] if tests else None
 
-def native_playback(src, harness, test_src, real_map, logf, hang_is_repro=False):
+def native_playback(src, harness, test_src, real_map, logf, hang_is_repro=False, memcheck=False):
     """Insert the generated #[test] next to the harness and run it natively (cargo kani playback)."""
     hfile = families.harness_file(VERIF, harness)
     # (after a compile repair the modules point at the repaired private copies)
@@ -370,6 +370,10 @@ def native_playback(src, harness, test_src, real_map, logf, hang_is_repro=False)
     tname = m.group(1)
     e = env_offline()
     e["RUSTFLAGS"] = "--cfg verif_native" + (" --cfg verif_real_map" if real_map else "")
+    if memcheck:
+        # a use-after-free / double free usually does not crash a plain native run (the allocator hands the block
+        # out again or not at all): run the same playback test under valgrind's memcheck
+        e["CARGO_TARGET_X86_64_UNKNOWN_LINUX_GNU_RUNNER"] = "valgrind --error-exitcode=97 -q"
     cmd = ["cargo", "kani", "playback", "-Z", "concrete-playback", "--", tname]
     hung = False
     with open(logf, "w") as lf:
@@ -397,6 +401,13 @@ def native_playback(src, harness, test_src, real_map, logf, hang_is_repro=False)
         if re.search(r"test result:", txt):
             return False, "native replay terminated (non-termination does not reproduce)"
         return None, "playback could not be built or run"
+    if memcheck:
+        mm = re.search(r"==\d+== (Invalid (?:read|write|free)[^\n]*|Mismatched free[^\n]*|Jump to the invalid address[^\n]*)", txt)
+        if mm:
+            return True, "valgrind memcheck on the native replay: " + mm.group(1)
+        if re.search(r"test result: ok\. 1 passed", txt):
+            return False, "playback test ran clean under valgrind memcheck (counterexample does not reproduce)"
+        return None, "playback under valgrind could not be built or run"
     if re.search(r"test result: FAILED|panicked at", txt):
         mm = re.search(r"panicked at [^\n]*\n([^\n]*)", txt)
         return True, (mm.group(0) if mm else "test failed")
@@ -609,6 +620,9 @@ def replay_violation(prop, h, vs, src, target, scratch, hobj):
     info["kani_concrete_playback_test"] = test_src
     ok, why = native_playback(src, h, test_src, False, os.path.join(scratch, f"pb_{short}.log"), hang_is_repro=bool(hobj.unwind_tag) or any(y.get("nonterm") for y in vs))
     info["native_model_containers"] = {"reproduced": ok, "detail": why}
+    if ok is False and any(re.search(r"dereference failure|double free|free argument|deallocated|dead object|invalid pointer", y["description"]) for y in vs):
+        ok, why = native_playback(src, h, test_src, False, os.path.join(scratch, f"pbv_{short}.log"), memcheck=True)
+        info["native_memcheck"] = {"reproduced": ok, "detail": why}
     ok2 = None
     if ok and hobj.real_map_replay:
         ok2, why2 = native_playback(src, h, test_src, True, os.path.join(scratch, f"pbr_{short}.log"))
